@@ -61,6 +61,7 @@ struct AllocState {
     long fail_at = -1;
     long op_allocs = 0;  // allocations since arm/window reset (while in_op or always if !tracking)
     bool fault_fired = false;
+    unsigned handler_calls = 0;
     // window stats
     unsigned long n_allocs = 0, n_frees = 0;
     size_t max_seen = 0;
@@ -144,7 +145,12 @@ inline void *raw_alloc(size_t n, bool array)
         long k = a.op_allocs++;
         if (a.armed && k == a.fail_at) {
             a.fault_fired = true;
-            throw std::bad_alloc();
+            // as the standard operator new does: an installed new-handler is called and the allocation is tried again (the handler
+            // is expected to have released something); without a handler the failure is reported
+            std::new_handler h = std::get_new_handler();
+            if (!h) throw std::bad_alloc();
+            ++a.handler_calls;
+            h();
         }
     }
     if (n > a.max_request) {
